@@ -176,13 +176,13 @@ Definition proof_eqb (a b : proof) : bool :=
 (* One merkle correspondence case: a transaction list, and queries
    (proof, root, tx) against VerifyTransaction. *)
 Definition mquery := (option proof * option bytes * bytes)%type.
-Definition mcase := (list (bytes * bytes) * list bytes * list mquery)%type.
+Definition mcase := (list (bytes * bytes) * list bytes * bool * list mquery)%type.
 Definition mout := (bytes * list proof * list mverdict)%type.
 Definition run_mcase (c : mcase) : mout :=
-  let '(tbl, txs, qs) := c in
+  let '(tbl, txs, want_proofs, qs) := c in
   let Hh := tbl_hash tbl in
   let '(r, ps) := proofs_for_txs Hh txs in
-  (r, ps, map (fun q : mquery => let '(p, rh, tx) := q in verify_tx Hh p rh tx) qs).
+  (r, (if want_proofs then ps else []), map (fun q : mquery => let '(p, rh, tx) := q in verify_tx Hh p rh tx) qs).
 Definition mout_eqb (a b : mout) : bool :=
   let '(r1, p1, v1) := a in
   let '(r2, p2, v2) := b in
